@@ -425,6 +425,30 @@ CLAIMS["C06"] = dict(
 NOT_CLAIMED = {}
 
 
+# generators added after the seeded-change rounds (DESIGN 7.1a)
+ADDENDA = {
+    "C01": "; every mutator re-called after another one (m,q,m',m,q), "
+           "caller-owned arguments edited in place and passed again",
+    "C02": "; inputs in every array representation, node weights of any "
+           "magnitude and precision",
+    "C03": "; dense graphs with degrees up to 39, loop-based definitions of "
+           "the n.s.i. measures, weights of any magnitude, inputs in every "
+           "array representation",
+    "C04": "; relabelling also through igraph permute_vertices + FromIGraph",
+    "C05": "; caller buffers overwritten after construction",
+    "C07": "; every setter, detours through another mode and back",
+    "C08": "; both modes re-thresholded on the same objects",
+    "C10": "; data with several spatial dimensions",
+    "C12": "; every coordinate axis in its own array representation",
+    "C13": "; one caller-owned window dict updated in place",
+    "C14": "; series of 130..320 samples against an int64 evaluation of "
+           "the same criterion",
+    "C16": "; time origins at epoch magnitudes",
+    "C18": "; hubs of degree 65..99",
+    "C20": "; long time axes (up to 3000 / 6000 samples)",
+}
+
+
 def main():
     props = [json.loads(l) for l in open(os.path.join(VERIF,
                                                       "properties.jsonl"))]
@@ -451,7 +475,7 @@ def main():
             "level_claimed": {"category": "exploration", "text": c["text"],
                               "design_ref": c["design"]},
             "level_note": c["note"],
-            "technique": c["technique"],
+            "technique": c["technique"] + ADDENDA.get(pid, ""),
         })
     man = {
         "version": 1,
